@@ -1,7 +1,7 @@
 CONFIG = dict(
         level='proof',
-        streams=[dict(harness='c08', driver='c08', shrink_field='ops')],
-        rule='three streams on the REAL objects, each case an operation list (Consume on copy i / Fork(n) of copy i) with a snapshot of EVERY '
+        streams=[dict(harness='c08', driver='c08', shrink_field='ops'), dict(harness='c08run', driver='c08', shrink_field='commits')],
+        rule='ITEM-LEVEL (harness c08): three streams on the REAL objects, each case an operation list (Consume on copy i / Fork(n) of copy i) with a snapshot of EVERY '
              'copy after EVERY operation. bd / bdex: leaves.BurndownAnalysis (people tracking on/off, TrackFiles on/off), populated by 1-4 commits, forked 1-3 ways '
              'repeatedly (up to 6 live copies, forks of forks), then real Consume calls with fabricated dependencies (insertions, deletions, '
              'modifications with edit scripts, renames, binary flips, merge-mode commits, time going backwards; 30 % of the cases also carry '
@@ -13,9 +13,35 @@ CONFIG = dict(
              'paths, identical blobs under several paths, merge commits, commits that are not children of the previous one, committer time '
              'going backwards, one commit replayed on two copies), different children consumed on different copies in interleaved order, each '
              'output recorded next to the output of a fresh never forked instance fed with the same branch-local commits. '
-             'Non-trivial = at least one Fork and at least one later mutation (bd: Consume; rb: Insert/Delete/Erase; pl: two Consume); '
-             'distinct = distinct configuration + operation list (+ commit list).',
-        exhaustive_note='bdex: 3 copies x 9 changes, all 729 two-commit sequences x 2 configurations (thorough: 4); rbex: 2 sides x 7 operations, all 2744 three-operation sequences',
+             'bdh / bdhex: the two other operations Pipeline.Run applies to the items of a branch, Hibernate and Boot, between the forks of a '
+             'BurndownAnalysis: in memory and on disk (HibernationToDisk, private temporary directory), thresholds 0 / small / at the arena '
+             'size -1, +0, +1 / above it, a Hibernate-Boot cycle of the origin BEFORE the first fork, several copies asleep at overlapping times, '
+             'booted in any order, Consume and Fork of the awake copies in between; a hibernated copy is recorded as the CRC and size of its '
+             'compressed image (buffers or file), which must not change while other copies are operated on, and after Boot it must report '
+             'exactly what it reported before Hibernate; bdhex = one file of 3 lines, origin + 1 clone (thorough: + 2 clones), every VALID sequence of '
+             '4 (thorough: 5) operations out of copies x {hib, boot, consume}, x {memory, disk} x {with, without a cycle before the fork}. '
+             'bds-*: LARGE cases, tracked files recorded run-length encoded, every copy compared with the model after every operation: one file '
+             'of 10^3 / 10^4 (thorough 10^5, 10^6) lines (+7, +1, +3: no multiple of 8/16/64) cut by edits with periods 2^k, 2^k+-1 (17, 63, 64, 65, '
+             '255, 1024, 4097) or by blocks walking up / down the file, forked 5 ways (+2), ticks up to 16382 = TreeMergeMark-1, all copies '
+             'asleep at the same time with the threshold at the arena size -1/+0/+1; 10^3 (thorough 10^4, 2^16+1) files of 0..16 lines; 100 / 64 '
+             '(thorough 1000) copies alive made by forks of arity 5 / 2 (3), all hibernated at once and booted in random order. '
+             'PIPELINE-LEVEL (harness c08run, kinds run-*): the real Pipeline.Run on synthetic histories with 1..4 (sometimes 5-6) roots, forks of '
+             'arity 2..5 (sometimes 6..9, planlib.WideGraph 7..14), nested forks, octopus and two-parent merges, unmerged heads, long arms '
+             '(other branches sleep), committer times backwards / equal, hibernation distance 0..3, DumpPlan / PrintActions, tick 1 h / 24 h / 7 d, '
+             'items: TicksSinceStart, TreeDiff, BlobCache inside transparent wrappers, a probe forked BY VALUE that remembers the commits it '
+             'consumed, and in half of the runs BurndownAnalysis (+ IdentityDetector, FileDiff) with hibernation threshold 0..1000 in memory / on '
+             'disk, people tracking on/off. The wrappers number the instances Fork returns and log every call, so Run is observed as an '
+             'operation list (fork i n) (consume i c index) (merge i j..) (hib i) (boot i) over instance numbers with a snapshot of every live '
+             'instance after every operation; judged like an item-level case (sibling unchanged, fork copy = origin, answer = private twin fed '
+             'with the instance history, Boot restores) plus: the history of the PLAN branch (Emerge: empty, Fork: copy, Commit: append; plan '
+             'captured from Run itself) must equal what the consuming instance / its by-value probe has consumed, and the probe must be handed '
+             'what the items of its own branch produced. run-dir: r roots x fork arity k x arm length a x distance d (r 1..4, k 0,2..5, a 1..3, d '
+             '0..3; quick: a quarter), each with and without burndown. run-scale: 1000 commits / 250 forks of arity 2..5 (thorough 10^4), 150 '
+             'commits with burndown on disk (thorough 2000); instances of deleted branches are no longer read, twins sampled. '
+             'Non-trivial = at least one Fork and at least one later mutation (bd: Consume / Hibernate; rb: Insert/Delete/Erase; pl: two Consume; '
+             'run: two roots or a commit with two children); distinct = distinct configuration + operation list (+ commit list).',
+        exhaustive_note='bdex: 3 copies x 9 changes, all 729 two-commit sequences x 2 configurations (thorough: 4); rbex: 2 sides x 7 operations, all 2744 three-operation sequences; '
+                        'bdhex: 2 copies x {hib, boot, consume}, all valid 4-operation sequences x {memory, disk} x {cycle before the fork or not} (thorough: 5 operations, 3 copies)',
         assumptions=[
             'the split of every item into a private and a shared part (coq/theories/Fork/Model.v, table in docs/C08.md) was made by reading '
             'each Fork method; that the Go Fork really copies the private part is NOT a theorem (heap aliasing is not expressible in Gallina): '
@@ -26,6 +52,12 @@ CONFIG = dict(
             'modelled by its flattened line array (that File.Update refines the array operation is C03)',
             'go-git DiffTree on the synthetic repositories is compared with a path-wise tree diff (no renames, no mode changes: C20 covers those)',
             'after an error or panic of Consume the Go object is half-updated: the case stops there; the snapshot of the OTHER copies is still compared',
+            'Hibernate / Boot are modelled as the identity on the private and the shared state (that the compressed arena decodes to itself is C09); '
+            'a hibernated copy cannot be read, it is taken to be in the state it last reported and checked when it is booted',
+            'pipeline-level stream: which commits a branch consists of is read from the plan that Run prints (DumpPlan / PrintActions through the '
+            'package sink, hook verifapi/c14.SetPlanPrinter); that the plan is a valid plan is C02/C04, that Run interprets it is C14; the burndown '
+            'item inside Run is judged by the implementation-only oracles (no model: its input comes from the real FileDiff); instances of '
+            'branches the plan has deleted are read once more at the end only',
         ],
         trusted_base=[
             'hand-written Gallina model coq/theories/Fork/Model.v: generic branch machinery (private/shared split, fork, step_on, run, solo) and '
@@ -35,6 +67,9 @@ CONFIG = dict(
             'read-only accessors /repo/leaves/verif_c08.go, /repo/internal/plumbing/verif_c08.go, re-exports /repo/verifapi/c08/c08.go (build tag '
             'verif), and the existing internal/rbtree/verif_hooks.go (VerifSnapshot), internal/burndown/verif_hooks.go (VerifFlatten)',
             'harness/synth (synthetic repositories); go-git, diffmatchpatch types are used, not verified',
+            'harness/cmd/c08run: the transparent wrappers (delegate every call, number the instances, log), the by-value probe, the plan '
+            'interpretation (branch -> commits), the private-twin replay; hooks verifapi/c14.SetPlanPrinter, leaves.VerifC08HibernatedFileName / '
+            'VerifC08Allocator (read-only)',
         ],
         level_text='Coq theorems for EVERY item (generic item interface, all fork arities, all operation sequences on any subset of the copies): '
                    'C08_frame (the private state of copy j is unchanged by any run that does not consume on j), C08_fork_copies (each new copy '
@@ -51,7 +86,8 @@ CONFIG = dict(
                    'enumeration explicit and checked but cannot show that the Go Fork methods copy what the model calls private; that is '
                    'established only for the generated scenarios (exhaustive small scopes + seeded random), by snapshotting every copy after '
                    'every operation. Modelled rather than verified: reflect-based ForkCopyPipelineItem, Allocator.Clone, CloneShallow/CloneDeep, '
-                   'go-git, diffmatchpatch. Not modelled: the content of fileHistories, hibernation of forked allocators (C09), Merge (C07). '
+                   'go-git, diffmatchpatch. Not modelled: the content of fileHistories, the compressed form of a hibernated arena (C09; Hibernate / Boot '
+                   'are the identity here), Merge (C07; in the pipeline-level stream the participants of a Merge may change, nobody else). '
                    'Observations recorded in docs/C08.md: BlobCache.Fork does not copy the logger (a forked BlobCache panics with a nil '
                    'dereference where the original logs an error); whether BlobCache.Fork copies or shares the cache MAP is unobservable '
                    '(Consume replaces the map, never writes to it); BurndownAnalysis.mergedFiles is shared by pointer after Fork but every '
